@@ -14,7 +14,7 @@ CHECK = {
              "long double): non-descent => failure and (x, f, g) of the state bit-identical; success => t finite > 0, state.x = x0+t*d, state.f/g = the "
              "function at state.x bit for bit; backtrack: Armijo, lemarechal: Armijo+Wolfe, fletcher: Armijo+strong Wolfe with slack 1e3*eps*(|f0|+|f|+|t g0.d|) "
              "and 1e3*eps*(sum|g0_i d_i|+sum|g_i d_i|), violation beyond 10x; on the generated quadratics (descent direction, max_iterations >= 128, initial step "
-             "as quantified, an admissible step satisfying the conditions exists, c1 < 1/2 for CG_DESCENT): all five succeed and satisfy their condition "
+             "as quantified, the steps satisfying the conditions form an interval at least 16 stpmin wide inside [16 stpmin, stpmax/16], c1 < 1/2 for CG_DESCENT): all five succeed and satisfy their condition "
              "(More-Thuente strong Wolfe, CG_DESCENT Wolfe or approximate Wolfe). Non-trivial: success after more than one trial step, or a refused non-zero "
              "non-descent direction. Distinct = distinct serialised cases (64-bit hash)."),
     "assumptions": ["harness-side construction of the quadratic and of the directions is correct",
